@@ -74,7 +74,12 @@ class pcomp(object):
         These are the coefficients of `derived`.
         Basically, they are a re-scaling of the eigenvectors.
         """
-        return self._evecs * np.tile(np.sqrt(self._evals), self._nv).reshape(
+        #
+        # The matrix is positive semi-definite, but rounding can make the
+        # eigenvalues that should be exactly zero slightly negative.
+        #
+        scale = np.sqrt(np.clip(self._evals, 0, None))
+        return self._evecs * np.tile(scale, self._nv).reshape(
             self._nv, self._nv)
 
     @lazyproperty
